@@ -1107,13 +1107,20 @@ pub fn swarm_for(profile: &str, rng: &mut Rng, thorough: bool) -> Swarm {
             if rng.chance(1, 4) {
                 // large transactions: tens of dirty pages per COMMIT (chunked commit path, WAL
                 // buffer larger than one write, multi-page splits)
-                sw.p_medium = 85;
+                sw.p_medium = 95;
                 sw.p_long = 0;
                 if !sw.types.contains(&Ty::Text) {
                     sw.types.push(Ty::Text);
                 }
-                sw.max_rows_per_insert = 72;
-                sw.min_rows_per_insert = 40;
+                sw.max_rows_per_insert = 110;
+                sw.min_rows_per_insert = 60;
+                sw.cfg.checkpoint_threshold = None;
+                sw.w.checkpoint = 1;
+                sw.w.pragma_checkpoint = 0;
+                sw.w.close_reopen = 0;
+                sw.w.create_index = 1;
+                sw.w.add_col = 0;
+                sw.p_null = 3;
                 sw.p_multi_insert = 90;
                 sw.w.insert *= 3;
                 sw.w.begin = 10;
